@@ -42,8 +42,9 @@ import (
 // candidate runs.
 type YHistory struct {
 	History
-	Gated bool  `json:"gated,omitempty"`
-	Turns []int `json:"turns,omitempty"`
+	Gated  bool  `json:"gated,omitempty"`
+	Turns  []int `json:"turns,omitempty"`
+	Racing int   `json:"racing,omitempty"` // > 0: a racing history (racing.go) of that many trials
 }
 
 // YieldStats is reported for the evidence only (never compared).
